@@ -379,3 +379,18 @@ func VerifAudioCacheInvariant() {
 	symapi.Assert(pes[0] == 0xB1 && pes[3] == 0xB1 && pes[4] == 0xff && pes[11] == 0xB2 && pes[15] == 0xB2, "adts-chain-of-the-new-batch-intact")
 	symapi.Reach("end")
 }
+
+// VerifNewPlaylist lets harnesses of other packages obtain a playlist with three listed
+// segments (numbers base..base+2) without running a segment generator.
+func VerifNewPlaylist(base int) *Playlist {
+	pl := NewPlaylist()
+	for i := 0; i < 3; i++ {
+		pl.segments = append(pl.segments, &segment{sequenceNo: base + i, duration: 5, file: &verifFile{}, uri: "/streams/live/h/" + strconv.Itoa(base+i) + ".ts"})
+	}
+	return pl
+}
+
+// VerifRollover adds the next segment to a playlist built by VerifNewPlaylist.
+func VerifRollover(pl *Playlist, seq int) {
+	pl.addSegment(&segment{sequenceNo: seq, duration: 5, file: &verifFile{}, uri: "/streams/live/h/" + strconv.Itoa(seq) + ".ts"})
+}
